@@ -181,6 +181,8 @@ impl GenCfg {
             "C04" => {
                 set(&mut w, K::Remove, 20);
                 set(&mut w, K::RemoveSubtree, 12);
+                set(&mut w, K::CycleSlot, 2);
+                p_boundary = *rng.pick(&[0, 0, 0, 0, 0, 0, 0, 25]);
                 set(&mut w, K::Insert, 20);
                 set(&mut w, K::AppendValue, 14);
             }
